@@ -356,7 +356,8 @@ func (c *Coordinator) alleviateShardHeadSeries(s *shardInfo, changeAbleShards []
 			continue
 		}
 
-		if tar.Series > c.option.MaxHeadSeries {
+		// too big for any shard, whichever limit it exceeds: it can be moved nowhere
+		if c.isTooBig(tar) {
 			c.log.Warnf("too big series [%d] series is [%d], skip alleviate", hash, tar.Series)
 			return 0
 		}
@@ -402,7 +403,7 @@ func (c *Coordinator) alleviateShardProcessSeries(s *shardInfo, changeAbleShards
 			continue
 		}
 
-		if tar.TotalSeries > c.option.MaxProcessSeries {
+		if c.isTooBig(tar) {
 			c.log.Warnf("too big series [%d] series is [%d], skip alleviate", hash, tar.Series)
 			return 0
 		}
